@@ -330,3 +330,48 @@ pub fn alias_views(c: &TextCase) -> (std::ops::Range<usize>, std::ops::Range<usi
         _ => (0..cut, cut..n), // adjacent views
     }
 }
+
+/// A history of other queries on one diff object (answers ignored).  Every query of the text-level
+/// API is a pure function of the diff, so whatever was asked before, the judged query that follows
+/// must give the answer a fresh object gives; a stale cache or cursor on the object shows up there.
+/// `sel` picks the history (0 = none).
+pub fn exercise<'a, T: similar::DiffableStr + ?Sized + 'a>(d: &'a TextDiff<'a, 'a, 'a, T>, sel: u8) {
+    if sel % 4 == 0 {
+        return;
+    }
+    let ops = d.ops().to_vec();
+    for step in 0..3u8 {
+        match (sel / 4 + step * 3 + sel) % 7 {
+            0 => {
+                let _ = d.ratio();
+            }
+            1 => {
+                let _ = d.grouped_ops((sel % 3) as usize);
+            }
+            2 => {
+                let _ = d.iter_all_changes().count();
+            }
+            3 => {
+                let _ = d.unified_diff().context_radius((sel % 5) as usize).header("a", "b").to_string();
+            }
+            4 => {
+                if let Some(op) = ops.get((sel as usize) % ops.len().max(1)) {
+                    let _ = d.iter_changes(op).count();
+                    let _ = d.iter_inline_changes_deadline(op, None).count();
+                }
+            }
+            5 => {
+                // a partially consumed iterator that is dropped
+                let mut it = d.iter_all_changes();
+                let _ = it.next();
+                let _ = it.next();
+            }
+            _ => {
+                for op in ops.iter().rev().take(2) {
+                    let _ = d.iter_changes(op).last();
+                }
+                let _ = d.grouped_ops(usize::MAX);
+            }
+        }
+    }
+}
